@@ -418,7 +418,7 @@ def r20_4(ctx):
 
 
 def rules(ctx):
-    return [r20_1, r20_2, r20_3, r20_4, r20_5]
+    return [__import__('vjsx.rules.c10', fromlist=['x']).field_ratchet('augmentation must not depend on earlier calls'), r20_1, r20_2, r20_3, r20_4, r20_5]
 
 
 EXPLANATION = (
